@@ -31,10 +31,17 @@ fn dbg<T: std::fmt::Debug>(t: &T) -> String {
     format!("{:?}", t)
 }
 
+/// Effective formatting of a style (gen::style::effective: the 29 attributes C05 names, an
+/// absent component standing for the workbook default), so that a cell written without
+/// `s=` and one written with an xf that equals the default render alike.
+pub fn style_text(st: &umya_spreadsheet::Style) -> String {
+    crate::gen::style::effective(st).0.join("|")
+}
+
 /// A cell that shows nothing: no value text, no formula, default style, no hyperlink.
 /// Such cells are dropped from dumps (declared normalisation: blank unstyled cells).
 pub fn cell_is_void(c: &umya_spreadsheet::Cell) -> bool {
-    c.get_value().is_empty() && !c.is_formula() && c.get_hyperlink().is_none() && dbg(c.get_style()) == dbg(&umya_spreadsheet::Style::default())
+    c.get_value().is_empty() && !c.is_formula() && c.get_hyperlink().is_none() && style_text(c.get_style()) == style_text(&umya_spreadsheet::Style::default())
 }
 
 pub fn dump_sheet(ws: &Worksheet) -> SheetDump {
@@ -52,16 +59,37 @@ pub fn dump_sheet(ws: &Worksheet) -> SheetDump {
             "value={:?} formula={:?} style={:?} hyperlink={:?}",
             c.get_cell_value().get_raw_value(),
             c.get_cell_value().get_formula_obj().map(|f| f.get_text().to_string()),
-            c.get_style(),
+            style_text(c.get_style()),
             c.get_hyperlink()
         );
         d.cells.insert((*co.get_row_num(), *co.get_col_num()), text);
     }
     for r in ws.get_row_dimensions() {
-        d.rows.insert(*r.get_row_num(), dbg(r));
+        d.rows.insert(
+            *r.get_row_num(),
+            format!(
+                "height={:?} descent={:?} thick_bot={:?} custom_height={:?} hidden={:?} style={}",
+                r.get_height(),
+                r.get_descent(),
+                r.get_thick_bot(),
+                r.get_custom_height(),
+                r.get_hidden(),
+                style_text(r.get_style())
+            ),
+        );
     }
     for c in ws.get_column_dimensions() {
-        d.cols.insert(*c.get_col_num(), dbg(c));
+        d.cols.insert(
+            *c.get_col_num(),
+            format!(
+                "width={:?} hidden={:?} best_fit={:?} auto_width={:?} style={}",
+                c.get_width(),
+                c.get_hidden(),
+                c.get_best_fit(),
+                c.get_auto_width(),
+                style_text(c.get_style())
+            ),
+        );
     }
     let p = &mut d.parts;
     p.insert("state".into(), dbg(&ws.get_state()));
@@ -95,14 +123,6 @@ pub fn dump_sheet(ws: &Worksheet) -> SheetDump {
     p.insert("sheet_format_properties".into(), dbg(ws.get_sheet_format_properties()));
     p.insert("row_breaks".into(), dbg(ws.get_row_breaks()));
     p.insert("column_breaks".into(), dbg(ws.get_column_breaks()));
-    p.insert("defined_names".into(), {
-        let v: Vec<(String, String, bool)> = ws
-            .get_defined_names()
-            .iter()
-            .map(|d| (d.get_name().to_string(), d.get_address(), d.has_local_sheet_id()))
-            .collect();
-        dbg(&v)
-    });
     p.insert("tables".into(), dbg(&ws.get_tables()));
     p.insert("images".into(), dbg(&ws.get_image_collection().len()));
     p.insert("charts".into(), dbg(&ws.get_chart_collection().len()));
@@ -118,11 +138,19 @@ pub fn dump_book(book: &Spreadsheet) -> BookDump {
     }
     let b = &mut d.book;
     b.insert("defined_names".into(), {
-        let v: Vec<(String, String, Option<u32>)> = book
+        // where a name is stored (workbook list or a sheet's list) carries no meaning: one
+        // set of (scope, name, canonical text), scope = the sheet a local name belongs to
+        let mut v: Vec<(Option<u32>, String, String)> = book
             .get_defined_names()
             .iter()
-            .map(|d| (d.get_name().to_string(), d.get_address(), if d.has_local_sheet_id() { Some(*d.get_local_sheet_id()) } else { None }))
+            .map(|d| (if d.has_local_sheet_id() { Some(*d.get_local_sheet_id()) } else { None }, d.get_name().to_string(), crate::props::c06::canon_name_text(&d.get_address())))
             .collect();
+        for (i, ws) in book.get_sheet_collection_no_check().iter().enumerate() {
+            for d in ws.get_defined_names() {
+                v.push((if d.has_local_sheet_id() { Some(i as u32) } else { None }, d.get_name().to_string(), crate::props::c06::canon_name_text(&d.get_address())));
+            }
+        }
+        v.sort();
         dbg(&v)
     });
     b.insert("workbook_view".into(), dbg(book.get_workbook_view()));
@@ -258,37 +286,45 @@ pub fn sem_sheet(ws: &Worksheet) -> SheetDump {
         name: ws.get_name().to_string(),
         ..Default::default()
     };
+    let default_style = style_text(&umya_spreadsheet::Style::default());
     for c in ws.get_cell_collection() {
         let text = c.get_value().to_string();
         let link = c
             .get_hyperlink()
             .map(|h| (h.get_url().to_string(), *h.get_location(), h.get_tooltip().to_string()));
-        if text.is_empty() && !c.is_formula() && link.is_none() {
+        let style = style_text(c.get_style());
+        if text.is_empty() && !c.is_formula() && link.is_none() && style == default_style {
             continue;
         }
         let kind = if text.is_empty() { "blank" } else { raw_kind(c.get_raw_value()) };
         let co = c.get_coordinate();
         d.cells.insert(
             (*co.get_row_num(), *co.get_col_num()),
-            format!("kind={} text={:?} formula={:?} link={:?}", kind, text, c.get_formula(), link),
+            format!("kind={} text={:?} formula={:?} link={:?} style={}", kind, text, c.get_formula(), link, style),
         );
     }
     for r in ws.get_row_dimensions() {
         // rows that carry nothing but defaults are not content
-        let s = format!("height={:?} hidden={:?} custom_height={:?}", r.get_height(), r.get_hidden(), r.get_custom_height());
-        if *r.get_height() == 0.0 && !*r.get_hidden() && !*r.get_custom_height() {
+        let st = style_text(r.get_style());
+        let s = format!("height={:?} hidden={:?} custom_height={:?} style={}", r.get_height(), r.get_hidden(), r.get_custom_height(), st);
+        if *r.get_height() == 0.0 && !*r.get_hidden() && !*r.get_custom_height() && st == default_style {
             continue;
         }
         d.rows.insert(*r.get_row_num(), s);
     }
     for c in ws.get_column_dimensions() {
-        d.cols.insert(*c.get_col_num(), format!("width={:?} hidden={:?} best_fit={:?}", c.get_width(), c.get_hidden(), c.get_best_fit()));
+        d.cols.insert(
+            *c.get_col_num(),
+            format!("width={:?} hidden={:?} best_fit={:?} style={}", c.get_width(), c.get_hidden(), c.get_best_fit(), style_text(c.get_style())),
+        );
     }
     let full = dump_sheet(ws);
     for (k, v) in full.parts {
         match k.as_str() {
             // re-rendered below through value getters
             "tables" | "sheet_format_properties" | "page_margins" | "sheet_views" | "code_name" | "active_cell" => {}
+            // compared through props::c06::project / diff (sets keyed by anchor, value getters)
+            "comments" | "conditional_formatting" | "data_validations" | "data_validations_2010" | "page_setup" | "header_footer" | "sheet_protection" | "tab_color" | "print_options" => {}
             _ => {
                 d.parts.insert(k, v);
             }
